@@ -68,6 +68,11 @@ var (
 	AllPurposes          = []string{"authentication", "assertionMethod", "keyAgreement", "capabilityDelegation", "capabilityInvocation"}
 )
 
+// JSONPatchValues are the values of generated JSON-patch add operations; they include pairs that differ as JSON but
+// look alike when printed with Go's %v ("7" / 7, "true" / true, ["x","y"] / "[x y]", {"a":"b"} / "map[a:b]").
+var JSONPatchValues = []interface{}{"v1", "v2", float64(7), "7", true, "true", map[string]interface{}{"a": "b"}, "map[a:b]", []interface{}{"x", "y"}, "[x y]",
+	[]interface{}{float64(7)}, []interface{}{"7"}, float64(0), "", "0", false, "false"}
+
 // IDAlphabet is a small id alphabet so that add-existing / remove-absent are frequent.
 var IDAlphabet = []string{"k1", "k2", "k3", "key-4", "K_5"}
 
@@ -224,7 +229,7 @@ func ValidPatch(t *rapid.T, o PatchOpts) map[string]interface{} {
 		var ops []interface{}
 		for i := 0; i < n; i++ {
 			name := rapid.SampledFrom([]string{"m1", "m2", "nested", "label"}).Draw(t, "member")
-			ops = append(ops, map[string]interface{}{"op": "add", "path": "/" + name, "value": rapid.SampledFrom([]interface{}{"v1", "v2", float64(7), true, map[string]interface{}{"a": "b"}, []interface{}{"x", "y"}}).Draw(t, "value")})
+			ops = append(ops, map[string]interface{}{"op": "add", "path": "/" + name, "value": rapid.SampledFrom(JSONPatchValues).Draw(t, "value")})
 		}
 		return map[string]interface{}{"action": a, "patches": ops}
 	}
